@@ -211,8 +211,8 @@ func init() {
 	reg(RepoModule+".CanonicalJSONAssumeValid", docIdentity(0))
 	reg(RepoModule+".CompactJSON", docIdentity(0))
 	reg(RepoModule+".SortJSON", docIdentity(0))
-	// verifyEnforcedCanonicalJSON on documents: integers must lie within +/-(2^53-1); literal (non-integer) number
-	// tokens are judged by the real predicate on their concrete text.
+	// verifyEnforcedCanonicalJSON on documents: integers must lie within +/-(2^53-1) (summary, validated on real bytes
+	// by vp_C01_enforced); literal (non-integer) number tokens are judged by the real function run on "[<literal>]".
 	reg(RepoModule+".verifyEnforcedCanonicalJSON", func(e *Engine, st *State, args []Value, fn *ssa.Function) []Outcome {
 		s := args[0].(*SliceV)
 		if s.IsNil() {
@@ -250,10 +250,13 @@ func init() {
 			if !conc {
 				panic(e.abort("J2: symbolic number literal in enforced canonical JSON check"))
 			}
-			f, err := strconv.ParseFloat(c, 64)
-			bad := err != nil || f < -9007199254740991 || f > 9007199254740991 ||
-				(f != 0 && strings.ContainsRune(c, '.')) || (f != 0 && strings.ContainsRune(c, 'e')) || (f == 0 && c == "-0")
-			if bad {
+			// the real function decides on the concrete token, wrapped in an array: "[<literal>]"
+			sub := e.execFunction(fn, []Value{e.newByteSlice(st, e.StrConst("["+c+"]"))}, nil, st)
+			if len(sub) != 1 || sub[0].panicked {
+				panic(e.abort("J2: enforced canonical JSON check on literal %q did not run concretely", c))
+			}
+			st = sub[0].st
+			if iv, isI := sub[0].ret.(*IfaceV); !isI || iv.T != nil {
 				ok = e.tb.False
 			}
 		}
@@ -275,3 +278,4 @@ func init() {
 }
 
 var _ = sort.Strings
+var _ = strings.Contains
